@@ -390,6 +390,12 @@ def part_cross(ctx):
         ('unknown entry after a known one (whitelist)', lambda: M.FormulaGrader(whitelist=['sin', 'nosuchfunction'])),
         ('unordered list with several subgraders', lambda: M.ListGrader(answers=['a', 'b'], subgraders=[S(), S()], ordered=False)),
         ('subgrader count mismatch', lambda: M.ListGrader(answers=['a', 'b'], subgraders=[S(), S(), S()], ordered=True)),
+        # unorderable values for range-restricted options are validation errors, never a raw TypeError (fix F10)
+        ('complex amplitude', lambda: M.RandomFunction(amplitude=3 + 4j)),
+        ('complex amplitude with zero imaginary part', lambda: M.RandomFunction(amplitude=3 + 0j)),
+        ('complex infty_val', lambda: M.SumGrader(answers={'lower': '1', 'upper': '2', 'summand': 'n', 'summation_variable': 'n'}, infty_val=3 + 4j)),
+        ('complex infty_val_fact', lambda: M.SumGrader(answers={'lower': '1', 'upper': '2', 'summand': 'n', 'summation_variable': 'n'}, infty_val_fact=2j)),
+        ('string num_terms', lambda: M.RandomFunction(num_terms='three')),
         ('grouping not starting at 1', lambda: M.ListGrader(answers=[['a', 'b'], 'c'], subgraders=[M.ListGrader(subgraders=S()), S()], ordered=True, grouping=[2, 2, 3])),
         ('grouping not starting at 1 (unordered)', lambda: M.ListGrader(answers=[['a', 'b'], ['c', 'd']], subgraders=M.ListGrader(subgraders=S()), grouping=[2, 3, 2, 3])),
         ('grouping starting at 0', lambda: M.ListGrader(answers=[['a', 'b'], ['c', 'd']], subgraders=M.ListGrader(subgraders=S()), grouping=[0, 0, 1, 1])),
